@@ -201,12 +201,12 @@ PROPS = {
                       "(same arguments => the instance created the first time, loaded once).",
         "units": [K("template.py::BaseTemplateFile.cook_check"), K("loader.py::TemplateLoader.load"),
                   K("loader.py::cache.load"), K("zpt/template.py::Macros.__getitem__"),
-                  K("zpt/loader.py::TemplateLoader.load"),
+                  K("zpt/loader.py::TemplateLoader.load"), K("zpt/template.py::PageTemplateFile.__init__.post_init"),
                   U('pyvc.frames', 'search_path_frame', 'search_path_frame'),
                   U('pyvc.frames', 'render_write_frame', 'render.write_frame'),
                   U('pyvc.frames', 'cook_drops_stale', 'cook.drops_stale_functions')],
         "not_decided": ["package-relative resolution ('pkg:path' specs and search-path entries)",
-                        "load: expressions resolving next to the including template (TemplateLoader use in zpt/loader.py)"],
+                        "the load: expression's own use of the relative loader (zpt/template.py _builtins / ProxyExpr)"],
         "assumptions": COMMON_ASSUMPTIONS + ["file system unchanged during one call"],
     },
     "C18": {
